@@ -26,6 +26,12 @@ SizedEv == LET e == Log[l] IN
   /\ SizedOk(e.size, e.len)
   /\ (e.drawn >= 0 => e.drawn = e.size)       \* one draw of the element generator per element
 
+(* the elements of a generated collection are separate draws of the element generator: over   *)
+(* many random bitstrings any two positions take all four value pairs (the driver reports the  *)
+(* smallest number of pairs seen for any two positions 1, 32, 64 or 128 apart)                  *)
+BitsFreeEv == LET e == Log[l] IN
+  /\ e.ev = "bits_free" /\ e.lens_ok /\ e.fewest_pairs = 4
+
 (* collections of 2^32 and more members (sizes beyond TLC's integers: the driver compares the *)
 (* reported number of members with the length and logs "len" when they are equal): built,     *)
 (* never rejected, and the number of members is the true one                                   *)
@@ -34,7 +40,7 @@ HugeEv == LET e == Log[l] IN
   /\ e.b = [k |-> "ok", n |-> "len"]
 
 TraceInit == l = 1
-TraceNext == l <= Len(Log) /\ l' = l + 1 /\ (Choice \/ CollectEv \/ SizedEv \/ HugeEv)
+TraceNext == l <= Len(Log) /\ l' = l + 1 /\ (Choice \/ CollectEv \/ SizedEv \/ HugeEv \/ BitsFreeEv)
 TraceSpec == TraceInit /\ [][TraceNext]_l
 TraceAccepted ==
   LET d == TLCGet("stats").diameter IN
